@@ -204,6 +204,43 @@ def close_clears(mod):
     return clears
 
 
+def other_table_sites(tree):
+    """every mention of the two instance tables (attribute access or the bare name as a string) in Pyro5/*.py outside
+    Daemon.__init__ / Daemon._getInstance / SocketConnection.__init__ / SocketConnection.close"""
+    import glob, os
+    allowed = {("server.py", "Daemon", "__init__"), ("server.py", "Daemon", "_getInstance"),
+               ("socketutil.py", "SocketConnection", "__init__"), ("socketutil.py", "SocketConnection", "close")}
+    names = {"_pyroInstances", "pyroInstances"}
+    sites = []
+    files = sorted(glob.glob(os.path.join(tree, "Pyro5", "**", "*.py"), recursive=True))
+    need(files, "no Pyro5 sources found")
+    for path in files:
+        rel = os.path.relpath(path, os.path.join(tree, "Pyro5"))
+        mod, _ = parse(tree, os.path.join("Pyro5", rel))
+
+        def visit(node, cls, fn):
+            if isinstance(node, ast.ClassDef):
+                cls, fn = node.name, None
+            elif isinstance(node, (ast.FunctionDef, ast.AsyncFunctionDef)) and fn is None:
+                fn = node.name
+            hit = (isinstance(node, ast.Attribute) and node.attr in names) or \
+                  (isinstance(node, ast.Constant) and isinstance(node.value, str) and node.value in names)
+            if hit and (rel, cls, fn) not in allowed:
+                sites.append("%s:%s.%s@%d" % (rel, cls, fn, node.lineno))
+            for ch in ast.iter_child_nodes(node):
+                visit(ch, cls, fn)
+        visit(mod, None, None)
+    # Daemon.__init__ may only create the empty table
+    srv, _ = parse(tree, "Pyro5/server.py")
+    init = find_func(srv, "__init__", "Daemon")
+    inits = [n for n in ast.walk(init) if isinstance(n, ast.Attribute) and n.attr in names]
+    ok_init = len(inits) == 1 and any(isinstance(n, ast.Assign) and len(n.targets) == 1 and n.targets[0] is inits[0]
+                                      and isinstance(n.value, ast.Dict) and not n.value.keys for n in ast.walk(init))
+    if not ok_init:
+        sites.append("server.py:Daemon.__init__ does more than create the empty table")
+    return sites
+
+
 def extract(tree):
     mod, _ = parse(tree, "Pyro5/server.py")
     func = find_func(mod, "_getInstance", "Daemon")
@@ -228,7 +265,7 @@ def extract(tree):
     clears = close_clears(su)
     info = {"single_test": single["test"], "session_test": session["test"], "single_locked": single["locked"],
             "lock_attr": single["lock_attr"], "lock_kind": locks.get(single["lock_attr"]) if single["lock_attr"] else None,
-            "session_locked": session["locked"], "close_clears": clears,
+            "session_locked": session["locked"], "close_clears": clears, "other_sites": other_table_sites(tree),
             "single_accesses": single["inside"], "session_accesses": session["inside"],
             "ast_sha": ast_sha(func)}
     return info
@@ -245,5 +282,7 @@ def gen_instances(tree):
     out += "Definition code_shape : shape :=\n  mk_shape %s   (* test on the looked-up single instance *)\n" % info["single_test"]
     out += "           %s   (* test on the looked-up session instance *)\n" % info["session_test"]
     out += "           %s   (* lookup, creation and store of the single instance inside one lock region *)\n" % cbool(info["single_locked"])
-    out += "           %s.  (* SocketConnection.close() empties pyroInstances *)\n" % cbool(info["close_clears"])
+    out += "           %s   (* SocketConnection.close() empties pyroInstances *)\n" % cbool(info["close_clears"])
+    out += "           %s.  (* nothing else in Pyro5 touches _pyroInstances / pyroInstances; other sites: %s *)\n" % (
+        cbool(not info["other_sites"]), info["other_sites"])
     return out, info
